@@ -467,6 +467,11 @@ def call_obligation(ctx, rep, world, pr, p, b, bi, t, info, n_site, r32_sinks):
         ok = ra[:1] == ["u8"] and r[1] <= 2 ** 63 - 1
         rep.check(ok, "bounds", p, "with_capacity#%d" % seq, "capacity in [%s,%s] bytes <= isize::MAX" % r, "Vec::with_capacity: capacity [%s,%s] of %s elements is not provably <= isize::MAX bytes" % (r[0], r[1], ra[:1]), b.loc(bi))
         return
+    if name in ("<std::option::Option<T> as std::cmp::PartialEq>::eq", "<std::option::Option<T> as std::cmp::PartialEq>::ne"):
+        # comparing two Option<T>: what T's own comparison does; no panic for integers and references to them
+        ra = [fb.ty(a["ty"]).s for a in t.get("resolved_args", []) if "ty" in a]
+        if ra[:1] and ra[0].lstrip("&").replace("mut ", "") in ("u8", "u16", "u32", "u64", "usize", "i8", "i16", "i32", "i64", "bool", "char"):
+            return
     if name == "std::vec::from_elem" and len(args) == 2:
         # vec![x; n]: panics iff n elements exceed isize::MAX bytes; decided for byte vectors
         ra = [fb.ty(a["ty"]).s for a in t.get("resolved_args", []) if "ty" in a]
